@@ -412,22 +412,22 @@ Proof.
     split; [left; cbn [fst]; rewrite E; discriminate|]. unfold IP.tok_vals. cbn [fst]. rewrite E. auto.
   - split; [right; eexists; reflexivity|]. unfold IP.tok_vals. cbn [fst snd]. rewrite tok_plain_not_global.
     split; [cbn [IP.cv_val]; rewrite IP.pmask_0; reflexivity|].
-    pose proof (v4_lt_top a H). split; constructor; try constructor.
+    pose proof (v4_lt_top a H). split; (constructor; [|constructor]).
     + cbn [IP.cv_ok]. rewrite N.pow_0_r, N.mod_1_r. lia.
     + unfold IP.v4_only. cbn [IP.cv_lo IP.cv_hi]. rewrite N.pow_0_r, N.add_0_r. split; apply v4_is_v4, H.
   - destruct H as (Ha & Hn & Hal). destruct (cidr_val a n Ha Hn Hal) as [Em Ev]. rewrite Em, Ev.
     split; [right; eexists; reflexivity|]. unfold IP.tok_vals. cbn [fst snd]. rewrite tok_plain_not_global.
     unfold IM.applyMask. rewrite N.land_0_l. split; [reflexivity|].
     destruct (pow_le_32 (32 - n) ltac:(lia)) as [HP _].
-    pose proof (aligned_bound a (2 ^ (32 - n)) W32 HP Hal (w32_aligned _ ltac:(lia)) Ha) as Hb.
-    split; constructor; try constructor.
+    pose proof (aligned_bound a (2 ^ (32 - n)) W32 HP Hal (w32_aligned (32 - n) ltac:(lia)) Ha) as Hb.
+    split; (constructor; [|constructor]).
     + cbn [IP.cv_ok]. split; [lia|]. split; [apply v4_lt_top, Ha|]. apply v4_aligned; [lia| exact Hal].
     + unfold IP.v4_only. cbn [IP.cv_lo IP.cv_hi]. split; [apply v4_is_v4, Ha|].
       replace (v4 a + (2 ^ (32 - n) - 1)) with (v4 (a + (2 ^ (32 - n) - 1))) by (unfold v4; lia). apply v4_is_v4. lia.
   - destruct H as (Hab & Hb).
     split; [right; eexists; reflexivity|]. unfold IP.tok_vals. cbn [fst snd]. rewrite tok_plain_not_global.
     split; [cbn [IP.cv_val]; rewrite IP.pmask_0; reflexivity|].
-    pose proof (v4_lt_top b Hb). split; constructor; try constructor.
+    pose proof (v4_lt_top b Hb). split; (constructor; [|constructor]).
     + cbn [IP.cv_ok]. rewrite N.pow_0_r, !N.mod_1_r. unfold v4 in *. repeat split; try lia.
     + unfold IP.v4_only. cbn [IP.cv_lo IP.cv_hi]. rewrite N.pow_0_r, N.add_0_r. split; apply v4_is_v4; lia.
   - destruct H as (Hab & Hb & Hn & Hala & Halb). assert (Ha : a < W32) by lia.
@@ -435,8 +435,8 @@ Proof.
     split; [right; eexists; reflexivity|]. unfold IP.tok_vals. cbn [fst snd]. rewrite tok_plain_not_global.
     split; [reflexivity|].
     destruct (pow_le_32 (32 - n) ltac:(lia)) as [HP _].
-    pose proof (aligned_bound b (2 ^ (32 - n)) W32 HP Halb (w32_aligned _ ltac:(lia)) Hb) as Hbb.
-    split; constructor; try constructor.
+    pose proof (aligned_bound b (2 ^ (32 - n)) W32 HP Halb (w32_aligned (32 - n) ltac:(lia)) Hb) as Hbb.
+    split; (constructor; [|constructor]).
     + cbn [IP.cv_ok]. pose proof (v4_lt_top b Hb). pose proof (v4_aligned a (32 - n) ltac:(lia) Hala).
       pose proof (v4_aligned b (32 - n) ltac:(lia) Halb). unfold v4 in *. repeat split; try lia.
     + unfold IP.v4_only. cbn [IP.cv_lo IP.cv_hi]. split; [apply v4_is_v4, Ha|].
@@ -523,3 +523,544 @@ Proof.
     + right. left. split; [|reflexivity]. rewrite E4. apply I5. exists w, g6. auto.
     + right. right. right. exists c. split; [|exact Hin]. unfold cvs. apply in_flat_map. exists tk. auto.
 Qed.
+
+(* ================================================================== *)
+(* 3b. methods                                                         *)
+Lemma meth_eq_iff a b : meth_eq a b = true <->
+  m_id a = m_id b /\ (m_id a <> am_OTHER \/ m_image a = m_image b).
+Proof.
+  unfold meth_eq. rewrite Bool.andb_true_iff, Bool.orb_true_iff, Bool.negb_true_iff, N.eqb_eq, N.eqb_neq, list_eqb_spec.
+  reflexivity.
+Qed.
+Lemma meth_eq_refl a : meth_eq a a = true.
+Proof. apply meth_eq_iff. auto. Qed.
+Lemma meth_eq_sym a b : meth_eq a b = true -> meth_eq b a = true.
+Proof. rewrite !meth_eq_iff. intros [E [H|H]]; (split; [congruence|]); [left; congruence| right; congruence]. Qed.
+Lemma meth_eq_trans a b c : meth_eq a b = true -> meth_eq b c = true -> meth_eq a c = true.
+Proof.
+  rewrite !meth_eq_iff. intros [E1 H1] [E2 H2]. split; [congruence|].
+  destruct H1 as [H1|H1]; [left; exact H1|]. destruct H2 as [H2|H2]; [left; congruence| right; congruence].
+Qed.
+
+(* the values of an ACLMethodData whose lines listed [toks], up to the order the lookups impose *)
+Definition meth_inv (toks : list bytes) (vs : list meth) : Prop :=
+  forall m, (exists v, In v vs /\ meth_eq v m = true) <-> (exists tok, In tok toks /\ meth_eq (meth_parse_cfg tok) m = true).
+
+Lemma meth_find_spec vs m : forall seen,
+  match meth_find vs m seen with
+  | Some vs' => exists r1 v r2, vs = r1 ++ v :: r2 /\ meth_eq v m = true /\ vs' = m :: rev seen ++ r1 ++ r2
+  | None => forall v, In v vs -> meth_eq v m = false
+  end.
+Proof.
+  induction vs as [|v r IH]; intros seen; cbn [meth_find]; [intros v []|].
+  destruct (meth_eq v m) eqn:E.
+  - exists [], v, r. auto.
+  - specialize (IH (v :: seen)). destruct (meth_find r m (v :: seen)) as [vs'|].
+    + destruct IH as (r1 & v' & r2 & -> & E' & ->). exists (v :: r1), v', r2. split; [reflexivity|]. split; [exact E'|].
+      cbn [rev]. rewrite <- !app_assoc. reflexivity.
+    + intros x [<-|Hx]; [exact E| exact (IH x Hx)].
+Qed.
+
+Lemma meth_lookup toks vs m : meth_inv toks vs ->
+  match meth_find vs m [] with
+  | Some vs' => meth_inv toks vs' /\ exists tok, In tok toks /\ meth_eq (meth_parse_cfg tok) m = true
+  | None => ~ exists tok, In tok toks /\ meth_eq (meth_parse_cfg tok) m = true
+  end.
+Proof.
+  intros Inv. pose proof (meth_find_spec vs m []) as S. destruct (meth_find vs m []) as [vs'|].
+  - destruct S as (r1 & v & r2 & -> & E & ->). cbn [rev app]. split.
+    + intros m'. rewrite <- (Inv m'). split.
+      * intros (x & [<-|Hx] & Hm).
+        -- exists v. split; [apply in_or_app; right; left; reflexivity| exact (meth_eq_trans _ _ _ E Hm)].
+        -- exists x. split; [|exact Hm]. apply in_app_or in Hx. apply in_or_app. destruct Hx; [left|right; right]; assumption.
+      * intros (x & Hx & Hm). apply in_app_or in Hx. destruct Hx as [Hx|[<-|Hx]].
+        -- exists x. split; [right; apply in_or_app; left; exact Hx| exact Hm].
+        -- exists m. split; [left; reflexivity| exact (meth_eq_trans _ _ _ (meth_eq_sym _ _ E) Hm)].
+        -- exists x. split; [right; apply in_or_app; right; exact Hx| exact Hm].
+    + apply Inv. exists v. split; [apply in_or_app; right; left; reflexivity| exact E].
+  - intros H. apply Inv in H. destruct H as (v & Hv & Hm). rewrite (S v Hv) in Hm. discriminate.
+Qed.
+
+Lemma meth_parse_inv toks : meth_inv toks ([] ++ map meth_parse_cfg toks).
+Proof.
+  intros m. cbn [app]. split.
+  - intros (v & Hv & Hm). apply in_map_iff in Hv. destruct Hv as (tok & <- & Ht). exists tok. auto.
+  - intros (tok & Ht & Hm). exists (meth_parse_cfg tok). split; [apply in_map, Ht| exact Hm].
+Qed.
+
+(* a method value that means what it says: reading it the way request lines are read gives the same method
+   (false exactly for proper prefixes of registered names, e.g. "GE" or "p") *)
+Definition meth_tok_exact (tok : bytes) : Prop := meth_parse_cfg tok = meth_parse_req tok.
+
+(* ================================================================== *)
+(* 3c. dstdomain: C41                                                  *)
+Module DP := SquidV.AcldomProofs.
+Module DM := SquidV.AcldomModel.
+
+Definition rdns_name (e : env) (a : N) : bytes :=
+  match assoc_n a (e_rev e) with Some nm => nm | None => s_none end.
+
+(* checklist->dst_rdns, once set, is the reverse name of the numeric URL host *)
+Definition rdns_ok (e : env) (rq : request) (rdns : option bytes) : Prop :=
+  match rdns with
+  | None => True
+  | Some r => exists a, rq_hostip rq = Some a /\ assoc_n a (e_rev e) = Some r
+  end.
+
+(* what a dstdomain ACL is asked about: the URL host and, for numeric hosts, its reverse name *)
+Definition dom_hit (e : env) (rq : request) (toks : list bytes) : Prop :=
+  exists tok, In tok toks /\
+    (DP.dom_match (DP.norm tok) (rq_host rq) \/
+     exists a, rq_hostip rq = Some a /\ DP.dom_match (DP.norm tok) (rdns_name e a)).
+
+Lemma dom_lookup e rq rdns toks t : Forall DP.nonempty toks -> DP.acl_holds toks t -> rdns_ok e rq rdns ->
+  DP.acl_holds toks (fst (fst (dom_eval e rq rdns t))) /\
+  rdns_ok e rq (snd (dom_eval e rq rdns t)) /\
+  (snd (fst (dom_eval e rq rdns t)) = true <-> dom_hit e rq toks).
+Proof.
+  intros W Ht Hr. unfold dom_eval, dom_hit.
+  destruct (DP.acl_match_correct toks t (rq_host rq) W Ht) as [Ht1 Hb1].
+  destruct (DM.acl_match t (rq_host rq)) as [t1 b1]. cbn [fst snd] in Ht1, Hb1.
+  destruct b1.
+  - cbn [fst snd]. split; [exact Ht1|]. split; [exact Hr|]. split; [intros _|reflexivity].
+    destruct (proj1 Hb1 eq_refl) as (tok & Hin & Hm). exists tok. auto.
+  - assert (Hno : forall tok, In tok toks -> ~ DP.dom_match (DP.norm tok) (rq_host rq)).
+    { intros tok Hin Hm. assert (false = true) by (apply Hb1; exists tok; auto). discriminate. }
+    destruct (rq_hostip rq) as [a|] eqn:Eh.
+    + assert (Hsecond : forall nm t2 b2, rdns_name e a = nm -> DM.acl_match t1 nm = (t2, b2) ->
+                DP.acl_holds toks t2 /\ (b2 = true <-> exists tok, In tok toks /\
+                  (DP.dom_match (DP.norm tok) (rq_host rq) \/ exists a0, Some a = Some a0 /\ DP.dom_match (DP.norm tok) (rdns_name e a0)))).
+      { intros nm t2 b2 En Em. destruct (DP.acl_match_correct toks t1 nm W Ht1) as [Ht2 Hb2]. rewrite Em in Ht2, Hb2.
+        cbn [fst snd] in Ht2, Hb2. split; [exact Ht2|]. rewrite Hb2. split.
+        - intros (tok & Hin & Hm). exists tok. split; [exact Hin|]. right. exists a. rewrite En. auto.
+        - intros (tok & Hin & [Hm|(a0 & Ea & Hm)]); [destruct (Hno tok Hin Hm)|]. inversion Ea; subst a0. exists tok. rewrite <- En. auto. }
+      destruct rdns as [r|].
+      * destruct Hr as (a' & Ea' & Er). rewrite Eh in Ea'. inversion Ea'; subst a'.
+        destruct (DM.acl_match t1 r) as [t2 b2] eqn:Em. cbn [fst snd].
+        destruct (Hsecond r t2 b2 ltac:(unfold rdns_name; rewrite Er; reflexivity) Em) as [H1 H2].
+        split; [exact H1|]. split; [exists a; auto| exact H2].
+      * destruct (assoc_n a (e_rev e)) as [nm|] eqn:Er.
+        -- destruct (DM.acl_match t1 nm) as [t2 b2] eqn:Em. cbn [fst snd].
+           destruct (Hsecond nm t2 b2 ltac:(unfold rdns_name; rewrite Er; reflexivity) Em) as [H1 H2].
+           split; [exact H1|]. split; [exists a; auto| exact H2].
+        -- destruct (DM.acl_match t1 s_none) as [t2 b2] eqn:Em. cbn [fst snd].
+           destruct (Hsecond s_none t2 b2 ltac:(unfold rdns_name; rewrite Er; reflexivity) Em) as [H1 H2].
+           split; [exact H1|]. split; [exact I| exact H2].
+    + cbn [fst snd]. split; [exact Ht1|]. split; [exact Hr|]. split; [discriminate|].
+      intros (tok & Hin & [Hm|(a0 & Ea & _)]); [destruct (Hno tok Hin Hm)| discriminate].
+Qed.
+
+(* ================================================================== *)
+(* 3d. dst: the resolved addresses of the URL host                     *)
+Lemma dst_lookup ips f4 f6 : Forall iptok_ok ips -> forall addrs t, ip_inv ips f4 f6 t -> Forall (fun a => a < W32) addrs ->
+  ip_inv ips f4 f6 (fst (dst_loop f4 f6 t addrs)) /\
+  (snd (dst_loop f4 f6 t addrs) = true <-> exists a tk, In a addrs /\ In tk ips /\ ip_in a tk).
+Proof.
+  intros H. induction addrs as [|a r IH]; intros t Inv Hr; cbn [dst_loop].
+  - cbn [fst snd]. split; [exact Inv|]. split; [discriminate| intros (a & tk & [] & _)].
+  - inversion Hr as [|? ? Ha Hr']; subst. destruct (ip_lookup ips f4 f6 t a H Inv Ha) as [Inv1 Hm].
+    destruct (IM.acl_match f4 f6 t (v4 a)) as [t1 b]. cbn [fst snd] in Inv1, Hm. destruct b.
+    + cbn [fst snd]. split; [exact Inv1|]. split; [intros _|reflexivity].
+      destruct (proj1 Hm eq_refl) as (tk & Hin & Hi). exists a, tk. split; [left; reflexivity| auto].
+    + destruct (IH t1 Inv1 Hr') as [Inv2 Hm2]. split; [exact Inv2|]. rewrite Hm2. split.
+      * intros (a' & tk & Hin & Htk & Hi). exists a', tk. split; [right; exact Hin| auto].
+      * intros (a' & tk & [<-|Hin] & Htk & Hi); [|exists a', tk; auto].
+        assert (false = true) by (apply Hm; exists tk; auto). discriminate.
+Qed.
+
+(* ================================================================== *)
+(* 4. the reference evaluation and the walk                            *)
+
+(* ---- all lines of a name have the type of its first line ---- *)
+Definition typed (cfg : list line) : Prop :=
+  forall n ty ips txt, In (LAcl n ty ips txt) cfg -> acl_type cfg n = Some ty.
+
+Lemma acl_type_app_some a b name ty : acl_type a name = Some ty -> acl_type (a ++ b) name = Some ty.
+Proof. intros H. rewrite acl_type_app, H. reflexivity. Qed.
+
+Lemma cfg_step_typed pre s l s' : parsed pre s -> typed pre -> cfg_step s l = Some s' -> typed (pre ++ [l]).
+Proof.
+  intros (HA & _ & _) HT Hs n ty ips txt Hin. apply in_app_or in Hin. destruct Hin as [Hin|[->|[]]].
+  - apply acl_type_app_some, (HT n ty ips txt Hin).
+  - cbn [cfg_step] in Hs. specialize (HA n). destruct (find_acl n (c_acls s)) as [a|].
+    + destruct (atype_eqb (a_type a) ty) eqn:Et; [|discriminate].
+      assert (Ety : a_type a = ty) by (destruct (a_type a), ty; cbn in Et; congruence).
+      destruct HA as (_ & H2 & _). apply acl_type_app_some. rewrite H2, Ety. reflexivity.
+    + rewrite acl_type_app, HA. cbn [acl_type]. rewrite list_eqb_refl. reflexivity.
+Qed.
+
+Lemma cfg_steps_typed rest : forall pre s s', parsed pre s -> typed pre -> cfg_steps s rest = Some s' -> typed (pre ++ rest).
+Proof.
+  induction rest as [|l rest IH]; intros pre s s' HP HT Hs; cbn [cfg_steps] in Hs.
+  - rewrite app_nil_r. exact HT.
+  - destruct (cfg_step s l) as [s1|] eqn:E; [|discriminate].
+    replace (pre ++ l :: rest) with ((pre ++ [l]) ++ rest) by (rewrite <- app_assoc; reflexivity).
+    apply (IH _ s1 s'); [exact (cfg_step_parsed pre s l s1 HP E)| exact (cfg_step_typed pre s l s1 HP HT E)| exact Hs].
+Qed.
+
+Lemma cfg_parse_typed cfg s : cfg_parse cfg = Some s -> typed (full cfg).
+Proof.
+  unfold cfg_parse, full. intros H.
+  destruct (cfg_steps (mkC [] []) (predefined ++ cfg)) as [s1|] eqn:E1; [|discriminate].
+  apply (cfg_steps_typed _ [] _ _ parsed_nil ltac:(intros ? ? ? ? []) E1).
+Qed.
+
+(* ---- well-formed lines (the quantifier of the property) ---- *)
+Definition line_ok (l : line) : Prop :=
+  match l with
+  | LAcl _ (TSrc | TDst) ips _ => Forall iptok_ok ips
+  | LAcl _ TDom _ txt => Forall DP.nonempty txt
+  | LAcl _ TPort _ txt => Forall (fun t => clean t = true) txt
+  | LAcl _ TMeth _ txt => Forall meth_tok_exact txt
+  | LAccess _ _ => True
+  end.
+
+Lemma Forall_flat_map' {A B} (P : B -> Prop) (f : A -> list B) l :
+  (forall x, In x l -> Forall P (f x)) -> Forall P (flat_map f l).
+Proof.
+  induction l as [|x l IH]; intros H; cbn [flat_map]; [constructor|].
+  apply Forall_app. split; [apply H; left; reflexivity| apply IH; intros y Hy; apply H; right; exact Hy].
+Qed.
+
+Lemma toks_ok cfg name ty : typed cfg -> Forall line_ok cfg -> acl_type cfg name = Some ty ->
+  match ty with
+  | TSrc | TDst => Forall iptok_ok (acl_ips cfg name)
+  | TDom => Forall DP.nonempty (acl_txt cfg name)
+  | TPort => forallb clean (acl_txt cfg name) = true
+  | TMeth => Forall meth_tok_exact (acl_txt cfg name)
+  end.
+Proof.
+  intros HT HW Hty. rewrite Forall_forall in HW.
+  assert (Hl : forall n ty' ips txt, In (LAcl n ty' ips txt) cfg -> list_eqb n name = true -> ty' = ty).
+  { intros n ty' ips txt Hin E. apply list_eqb_spec in E. subst n. pose proof (HT _ _ _ _ Hin). congruence. }
+  assert (Hfb : forall l, Forall (fun t => clean t = true) l -> forallb clean l = true).
+  { intros l F. apply forallb_forall. rewrite Forall_forall in F. exact F. }
+  destruct ty; [| |  |apply Hfb|]; unfold acl_ips, acl_txt; apply Forall_flat_map'; intros l Hin;
+    pose proof (HW l Hin) as Hok; destruct l as [n ty' ips txt|? ?]; cbn [line_ips line_txt]; try constructor;
+    destruct (list_eqb n name) eqn:E; try constructor; pose proof (Hl _ _ _ _ Hin E) as ->; exact Hok.
+Qed.
+
+(* ---- the reference: set semantics of one named ACL ---- *)
+Definition ref_acl (cfg : list line) (e : env) (rq : request) (name : bytes) : Prop :=
+  match acl_type cfg name with
+  | Some TSrc => exists tk, In tk (acl_ips cfg name) /\ ip_in (rq_client rq) tk
+  | Some TDst => exists a tk, In a (resolve e rq) /\ In tk (acl_ips cfg name) /\ ip_in a tk
+  | Some TDom => dom_hit e rq (acl_txt cfg name)
+  | Some TPort => exists t lo hi, In t (acl_txt cfg name) /\ tok_range t = Some (lo, hi) /\ (lo <= rq_port rq <= hi)%Z
+  | Some TMeth => exists tok, In tok (acl_txt cfg name) /\
+                    meth_eq (meth_parse_req tok) (meth_parse_req (rq_method rq)) = true
+  | None => False
+  end.
+
+Definition req_ok (e : env) (rq : request) : Prop :=
+  rq_client rq < W32 /\ Forall (fun a => a < W32) (resolve e rq) /\ (0 <= rq_port rq <= 65535)%Z.
+
+(* ---- the invariant of an ACL object ---- *)
+Definition data_inv (cfg : list line) (name : bytes) (ty : atype) (d : adata) : Prop :=
+  match ty, d with
+  | (TSrc | TDst), DIp f4 f6 t _ => ip_inv (acl_ips cfg name) f4 f6 t
+  | TDom, DDom t _ => DP.acl_holds (acl_txt cfg name) t
+  | TPort, DPort rs => fst (ir_parse (acl_txt cfg name) [] false) = Some rs
+  | TMeth, DMeth vs => meth_inv (acl_txt cfg name) vs
+  | _, _ => False
+  end.
+
+Lemma parsed_data_inv cfg name a : typed cfg -> Forall line_ok cfg -> acl_parsed cfg name a ->
+  data_inv cfg name (a_type a) (a_data a).
+Proof.
+  intros HT HW (_ & Hty & Hp). pose proof (toks_ok cfg name (a_type a) HT HW Hty) as Hok.
+  destruct (a_type a); cbn [empty_data parse_into] in Hp.
+  1,2: destruct (IM.acl_parse_from false false Leaf 0%Z (map ip_spec (acl_ips cfg name))) as [f4 f6 t n| | |] eqn:E; try discriminate;
+       inversion Hp; cbn [data_inv]; exact (ip_parse_inv _ _ _ _ _ Hok E).
+  - destruct (DM.acl_parse_from Leaf 0%Z (acl_txt cfg name)) as [t n| | |] eqn:E; try discriminate. inversion Hp. cbn [data_inv].
+    destruct (DP.acl_parse_ok _ Hok) as (t' & n' & E' & Hh). unfold DM.acl_parse in E'. rewrite E in E'. inversion E'; subst. exact Hh.
+  - cbn [rev] in Hp. destruct (ir_parse (acl_txt cfg name) [] false) as [[rs|] u] eqn:E; try discriminate. inversion Hp.
+    cbn [data_inv]. rewrite E. reflexivity.
+  - inversion Hp. cbn [data_inv]. apply meth_parse_inv.
+Qed.
+
+(* ---- one literal ---- *)
+Lemma leaf_ok cfg e rq rdns name a : typed cfg -> Forall line_ok cfg -> req_ok e rq -> rdns_ok e rq rdns ->
+  acl_type cfg name = Some (a_type a) -> data_inv cfg name (a_type a) (a_data a) ->
+  data_inv cfg name (a_type a) (snd (fst (leaf_eval e rq rdns a))) /\
+  rdns_ok e rq (snd (leaf_eval e rq rdns a)) /\
+  (fst (fst (leaf_eval e rq rdns a)) = true <-> ref_acl cfg e rq name).
+Proof.
+  intros HT HW (Hc & Hres & Hport) Hr Hty Hd. pose proof (toks_ok cfg name (a_type a) HT HW Hty) as Hok.
+  unfold leaf_eval, ref_acl. rewrite Hty.
+  destruct (a_type a); destruct (a_data a) as [f4 f6 t n|t n|rs|vs]; cbn [data_inv] in Hd; try contradiction.
+  - destruct (ip_lookup _ f4 f6 t (rq_client rq) Hok Hd Hc) as [I M].
+    destruct (IM.acl_match f4 f6 t (v4 (rq_client rq))) as [t' b]. cbn [fst snd data_inv] in *. auto.
+  - destruct (dst_lookup _ f4 f6 Hok (resolve e rq) t Hd Hres) as [I M].
+    destruct (dst_loop f4 f6 t (resolve e rq)) as [t' b]. cbn [fst snd data_inv] in *. auto.
+  - destruct (dom_lookup e rq rdns _ t Hok Hd Hr) as (I & R & M).
+    destruct (dom_eval e rq rdns t) as [[t' b] rdns']. cbn [fst snd data_inv] in *. auto.
+  - cbn [fst snd data_inv]. split; [exact Hd|]. split; [exact Hr|].
+    apply (intrange_match_iff _ rs (rq_port rq) Hok Hd). unfold two31, int_max. lia.
+  - pose proof (meth_lookup _ vs (meth_parse_req (rq_method rq)) Hd) as L.
+    assert (Hex : (exists tok, In tok (acl_txt cfg name) /\ meth_eq (meth_parse_cfg tok) (meth_parse_req (rq_method rq)) = true) <->
+                  (exists tok, In tok (acl_txt cfg name) /\ meth_eq (meth_parse_req tok) (meth_parse_req (rq_method rq)) = true)).
+    { rewrite Forall_forall in Hok. split; intros (tok & Hin & Hm); exists tok; (split; [exact Hin|]);
+        [rewrite <- (Hok tok Hin)| rewrite (Hok tok Hin)]; exact Hm. }
+    destruct (meth_find vs (meth_parse_req (rq_method rq)) []) as [vs'|]; cbn [fst snd data_inv].
+    + destruct L as [I X]. split; [exact I|]. split; [exact Hr|]. split; [intros _; apply Hex, X| reflexivity].
+    + split; [exact Hd|]. split; [exact Hr|]. split; [discriminate|]. intros X. apply Hex in X. contradiction.
+Qed.
+
+(* ---- the walk ---- *)
+Definition acls_inv (cfg : list line) (acls : list aclobj) : Prop :=
+  forall name, match find_acl name acls with
+               | Some a => acl_type cfg name = Some (a_type a) /\ data_inv cfg name (a_type a) (a_data a)
+               | None => True
+               end.
+
+(* a literal holds: the ACL matches, or does not when preceded by '!' *)
+Definition term_holds (cfg : list line) (e : env) (rq : request) (t : bool * bytes) : Prop :=
+  if fst t then ~ ref_acl cfg e rq (snd t) else ref_acl cfg e rq (snd t).
+(* a rule applies when all its literals hold *)
+Definition rule_holds (cfg : list line) (e : env) (rq : request) (terms : list (bool * bytes)) : Prop :=
+  Forall (term_holds cfg e rq) terms.
+
+Definition same_names (acls acls' : list aclobj) : Prop :=
+  forall n, find_acl n acls' = None <-> find_acl n acls = None.
+
+Lemma and_walk_ok cfg e rq : typed cfg -> Forall line_ok cfg -> req_ok e rq ->
+  forall terms acls rdns, acls_inv cfg acls -> rdns_ok e rq rdns ->
+  (forall t, In t terms -> find_acl (snd t) acls <> None) ->
+  acls_inv cfg (snd (fst (and_walk e rq acls rdns terms))) /\
+  rdns_ok e rq (snd (and_walk e rq acls rdns terms)) /\
+  same_names acls (snd (fst (and_walk e rq acls rdns terms))) /\
+  (fst (fst (and_walk e rq acls rdns terms)) = true <-> rule_holds cfg e rq terms).
+Proof.
+  intros HT HW HQ. induction terms as [|[neg name] terms IH]; intros acls rdns Inv Hr Hex; cbn [and_walk].
+  - cbn [fst snd]. split; [exact Inv|]. split; [exact Hr|]. split; [intros n; reflexivity|]. split; [constructor| reflexivity].
+  - pose proof (Hex (neg, name) ltac:(left; reflexivity)) as Hn. cbn [snd] in Hn.
+    pose proof (Inv name) as Ia. destruct (find_acl name acls) as [a|] eqn:Ef; [|contradiction]. destruct Ia as [Hty Hd].
+    destruct (leaf_ok cfg e rq rdns name a HT HW HQ Hr Hty Hd) as (Hd' & Hr' & Hb).
+    destruct (leaf_eval e rq rdns a) as [[b d] rdns']. cbn [fst snd] in Hd', Hr', Hb.
+    assert (Inv' : acls_inv cfg (set_data name d acls)).
+    { intros n. rewrite find_set. destruct (list_eqb n name) eqn:E.
+      - apply list_eqb_spec in E. subst n. rewrite Ef. cbn [a_type a_data]. auto.
+      - apply Inv. }
+    assert (Same : same_names acls (set_data name d acls)).
+    { intros n. rewrite find_set. destruct (list_eqb n name) eqn:E; [|reflexivity].
+      apply list_eqb_spec in E. subst n. rewrite Ef. split; discriminate. }
+    assert (Hterm : xorb neg b = true <-> term_holds cfg e rq (neg, name)).
+    { unfold term_holds. cbn [fst snd]. destruct neg, b; cbn [xorb]; split; intros H; try discriminate; try reflexivity.
+      - exfalso. apply H, Hb. reflexivity.
+      - intros X. apply Hb in X. discriminate.
+      - apply Hb. reflexivity.
+      - apply Hb in H. discriminate. }
+    destruct (xorb neg b) eqn:Ex.
+    + assert (Hex' : forall t, In t terms -> find_acl (snd t) (set_data name d acls) <> None).
+      { intros t Ht X. apply Same in X. exact (Hex t (or_intror Ht) X). }
+      destruct (IH (set_data name d acls) rdns' Inv' Hr' Hex') as (I2 & R2 & S2 & B2).
+      split; [exact I2|]. split; [exact R2|]. split.
+      * intros n. exact (iff_trans (S2 n) (Same n)).
+      * rewrite B2. unfold rule_holds. split; [intros F; constructor; [apply Hterm; reflexivity| exact F]| intros F; inversion F; assumption].
+    + cbn [fst snd]. split; [exact Inv'|]. split; [exact Hr'|]. split; [exact Same|]. split; [discriminate|].
+      intros F. inversion F as [|? ? F1 _]; subst. apply Hterm in F1. discriminate.
+Qed.
+
+(* first match: "allow" of the first rule that applies, or the default when none applies *)
+Fixpoint fm_allows (holds : list (bool * bytes) -> Prop) (rules : list rule) (dflt : bool) : Prop :=
+  match rules with
+  | [] => dflt = true
+  | (allow, terms) :: r => (holds terms /\ allow = true) \/ (~ holds terms /\ fm_allows holds r dflt)
+  end.
+
+Lemma or_walk_ok cfg e rq : typed cfg -> Forall line_ok cfg -> req_ok e rq ->
+  forall rules acls rdns, acls_inv cfg acls -> rdns_ok e rq rdns ->
+  (forall r t, In r rules -> In t (snd r) -> find_acl (snd t) acls <> None) ->
+  acls_inv cfg (snd (or_walk e rq acls rdns rules)) /\
+  same_names acls (snd (or_walk e rq acls rdns rules)) /\
+  forall dflt, (match fst (or_walk e rq acls rdns rules) with Some al => al = true | None => dflt = true end)
+               <-> fm_allows (rule_holds cfg e rq) rules dflt.
+Proof.
+  intros HT HW HQ. induction rules as [|[allow terms] rules IH]; intros acls rdns Inv Hr Hex; cbn [or_walk].
+  - cbn [fst snd fm_allows]. split; [exact Inv|]. split; [intros n; reflexivity|]. intros dflt. reflexivity.
+  - destruct (and_walk_ok cfg e rq HT HW HQ terms acls rdns Inv Hr
+                (fun t Ht => Hex (allow, terms) t (or_introl eq_refl) Ht)) as (I1 & R1 & S1 & B1).
+    destruct (and_walk e rq acls rdns terms) as [[b acls1] rdns1]. cbn [fst snd] in I1, R1, S1, B1.
+    destruct b.
+    + cbn [fst snd fm_allows]. split; [exact I1|]. split; [exact S1|]. intros dflt.
+      pose proof (proj1 B1 eq_refl) as Hh. split; [intros ->; left; auto| intros [[_ E]|[N _]]; [exact E| contradiction]].
+    + assert (Hex' : forall r t, In r rules -> In t (snd r) -> find_acl (snd t) acls1 <> None).
+      { intros r t Hr' Ht X. apply S1 in X. exact (Hex r t (or_intror Hr') Ht X). }
+      destruct (IH acls1 rdns1 I1 R1 Hex') as (I2 & S2 & B2).
+      split; [exact I2|]. split; [intros n; exact (iff_trans (S2 n) (S1 n))|]. intros dflt. rewrite B2. cbn [fm_allows].
+      assert (Nh : ~ rule_holds cfg e rq terms) by (intros X; apply B1 in X; discriminate).
+      split; [intros F; right; auto| intros [[X _]|[_ F]]; [contradiction| exact F]].
+Qed.
+
+(* the reference decision for a request *)
+Definition ref_allows (cfg : list line) (e : env) (rq : request) : Prop :=
+  fm_allows (rule_holds (full cfg) e rq) (ref_rules (full cfg))
+            (negb (fst (last (ref_rules (full cfg)) (true, [])))).     (* no rule applies: reverse of the last action *)
+
+Definition st_inv (cfg : list line) (s : cstate) : Prop :=
+  acls_inv (full cfg) (c_acls s) /\ c_rules s = ref_rules (full cfg) /\
+  (forall r t, In r (c_rules s) -> In t (snd r) -> find_acl (snd t) (c_acls s) <> None).
+
+Lemma rev_head_last {A} (l : list A) x r d : rev l = x :: r -> last l d = x.
+Proof.
+  intros H. assert (E : l = rev r ++ [x]).
+  { rewrite <- (rev_involutive l), H. reflexivity. }
+  rewrite E. apply last_last.
+Qed.
+
+Lemma check_ok cfg e s rq : typed (full cfg) -> Forall line_ok (full cfg) -> req_ok e rq -> st_inv cfg s ->
+  st_inv cfg (snd (check e s rq)) /\
+  (access_done (fst (check e s rq)) = OForward <-> ref_allows cfg e rq).
+Proof.
+  intros HT HW HQ (Inv & HR & Hex). unfold check.
+  destruct (or_walk_ok (full cfg) e rq HT HW HQ (c_rules s) (c_acls s) None Inv I Hex) as (I1 & S1 & B1).
+  destruct (or_walk e rq (c_acls s) None (c_rules s)) as [w acls']. cbn [fst snd] in *.
+  split.
+  - split; [exact I1|]. split; [exact HR|]. cbn [c_rules c_acls]. intros r t Hr Ht X. apply S1 in X. exact (Hex r t Hr Ht X).
+  - unfold ref_allows. rewrite <- HR, <- B1. destruct w as [[|]|]; cbn [access_done].
+    + split; reflexivity.
+    + split; discriminate.
+    + destruct (rev (c_rules s)) as [|[[|] ts] r] eqn:Er.
+      * assert (c_rules s = []) by (rewrite <- (rev_involutive (c_rules s)), Er; reflexivity).
+        rewrite H. cbn. split; discriminate.
+      * assert (EL : last (c_rules s) (true, []) = (true, ts)) by (apply (rev_head_last _ _ r), Er).
+        rewrite EL. cbn. split; discriminate.
+      * assert (EL : last (c_rules s) (true, []) = (false, ts)) by (apply (rev_head_last _ _ r), Er).
+        rewrite EL. cbn. split; reflexivity.
+Qed.
+
+Lemma serve_ok cfg e : typed (full cfg) -> Forall line_ok (full cfg) ->
+  forall reqs s, st_inv cfg s -> Forall (req_ok e) reqs ->
+  Forall2 (fun rq o => o = OForward <-> ref_allows cfg e rq) reqs (serve e s reqs).
+Proof.
+  intros HT HW. induction reqs as [|rq reqs IH]; intros s Inv HQ; cbn [serve]; [constructor|].
+  inversion HQ as [|? ? Q1 QR]; subst. destruct (check_ok cfg e s rq HT HW Q1 Inv) as [Inv' Hv].
+  destruct (check e s rq) as [v s']. cbn [fst snd] in *. constructor; [exact Hv| exact (IH s' Inv' QR)].
+Qed.
+
+Lemma predefined_ok : Forall line_ok predefined.
+Proof. constructor; [|constructor]. cbn. constructor; [|constructor]. cbn. discriminate. Qed.
+
+Lemma cfg_parse_inv cfg s : Forall line_ok cfg -> cfg_parse cfg = Some s -> st_inv cfg s.
+Proof.
+  intros HW H. pose proof (cfg_parse_typed cfg s H) as HT. destruct (cfg_parse_parsed cfg s H) as (PA & PR & PN).
+  assert (HW' : Forall line_ok (full cfg)) by (apply Forall_app; split; [exact predefined_ok| exact HW]).
+  split; [|split; assumption].
+  intros name. specialize (PA name). destruct (find_acl name (c_acls s)) as [a|]; [|exact I].
+  split; [apply PA| exact (parsed_data_inv _ _ _ HT HW' PA)].
+Qed.
+
+(* ===== the property over the model ===== *)
+Theorem access_correct cfg e reqs outs :
+  Forall line_ok cfg -> Forall (req_ok e) reqs -> access_run cfg e reqs = Some outs ->
+  Forall2 (fun rq o => (o = OForward <-> ref_allows cfg e rq) /\ (o = ODeny403 <-> ~ ref_allows cfg e rq)) reqs outs.
+Proof.
+  intros HW HQ H. unfold access_run in H. destruct (cfg_parse cfg) as [s|] eqn:E; [|discriminate]. inversion H; subst outs.
+  pose proof (cfg_parse_typed cfg s E) as HT.
+  assert (HW' : Forall line_ok (full cfg)) by (apply Forall_app; split; [exact predefined_ok| exact HW]).
+  pose proof (serve_ok cfg e HT HW' reqs s (cfg_parse_inv cfg s HW E) HQ) as F.
+  clear -F. induction F as [|rq o reqs outs Ho F IH]; constructor; [|exact IH].
+  split; [exact Ho|]. destruct o; split.
+  - discriminate.
+  - intros N. exfalso. apply N, Ho. reflexivity.
+  - intros _ X. apply Ho in X. discriminate.
+  - reflexivity.
+Qed.
+
+(* ---- no http_access line that names an ACL: everything is denied ---- *)
+Lemma all_always_matches cfg e rq : ref_acl (full cfg) e rq s_all.
+Proof.
+  unfold ref_acl, full, predefined. cbn [app acl_type]. rewrite list_eqb_refl.
+  exists (IWord s_all). split; [|exists true; reflexivity].
+  unfold acl_ips. cbn [flat_map line_ips]. rewrite list_eqb_refl. left. reflexivity.
+Qed.
+
+Theorem no_rules_deny cfg e rq : raw_rules cfg = [] -> ~ ref_allows cfg e rq.
+Proof.
+  intros H. unfold ref_allows, ref_rules, full. rewrite raw_rules_app, H. cbn [predefined raw_rules flat_map line_rule app fm_allows].
+  intros [[_ E]|[N _]]; [discriminate|]. apply N. constructor; [|constructor]. unfold term_holds. cbn [fst snd].
+  apply (all_always_matches cfg e rq).
+Qed.
+
+(* ================================================================== *)
+(* 5. the defect: a method value that is a proper prefix of a registered method name            *)
+Definition b_m : bytes := [109].                     (* "m" *)
+Definition b_GE : bytes := [71; 69].                 (* "GE" *)
+Definition b_GET : bytes := [71; 69; 84].            (* "GET" *)
+(* acl m method GE / http_access deny m / http_access allow all *)
+Definition wit_cfg : list line :=
+  [LAcl b_m TMeth [] [b_GE]; LAccess false [(false, b_m)]; LAccess true [(false, s_all)]].
+(* from 127.0.0.3: <method> http://127.0.0.1:80/ *)
+Definition wit_req (m : bytes) : request := mkReq 2130706435 m [49; 50; 55; 46; 48; 46; 48; 46; 49] (Some 2130706433) 80%Z.
+Definition wit_env : env := mkEnv [] [].
+
+Lemma wit_rules : ref_rules (full wit_cfg) = [(false, [(false, b_m)]); (true, [(false, s_all)])].
+Proof. reflexivity. Qed.
+
+Lemma wit_m_matches m : ref_acl (full wit_cfg) wit_env (wit_req m) b_m <->
+  meth_eq (meth_parse_req b_GE) (meth_parse_req m) = true.
+Proof.
+  unfold ref_acl. change (acl_type (full wit_cfg) b_m) with (Some TMeth).
+  change (acl_txt (full wit_cfg) b_m) with [b_GE]. cbn [rq_method wit_req]. split.
+  - intros (tok & [<-|[]] & H). exact H.
+  - intros H. exists b_GE. split; [left; reflexivity| exact H].
+Qed.
+
+Theorem method_prefix_witness :
+  Forall (fun t => clean t = true /\ t <> []) [b_GE] /\ ~ meth_tok_exact b_GE /\
+  meth_parse_cfg b_GE = meth_parse_req b_GET /\
+  (* the method GE, which the access list denies, is forwarded *)
+  access_run wit_cfg wit_env [wit_req b_GE] = Some [OForward] /\ ~ ref_allows wit_cfg wit_env (wit_req b_GE) /\
+  (* GET, which the access list allows, is denied *)
+  access_run wit_cfg wit_env [wit_req b_GET] = Some [ODeny403] /\ ref_allows wit_cfg wit_env (wit_req b_GET).
+Proof.
+  split; [constructor; [split; [reflexivity| discriminate]| constructor]|].
+  split; [unfold meth_tok_exact; vm_compute; discriminate|].
+  split; [vm_compute; reflexivity|].
+  split; [vm_compute; reflexivity|].
+  split.
+  - unfold ref_allows. rewrite wit_rules. cbn [fm_allows]. intros [[_ E]|[N _]]; [discriminate|].
+    apply N. constructor; [|constructor]. unfold term_holds. cbn [fst snd]. apply wit_m_matches. vm_compute. reflexivity.
+  - split; [vm_compute; reflexivity|].
+    unfold ref_allows. rewrite wit_rules. cbn [fm_allows]. right. split.
+    + intros F. inversion F as [|? ? F1 _]; subst. unfold term_holds in F1. cbn [fst snd] in F1.
+      apply wit_m_matches in F1. vm_compute in F1. discriminate.
+    + left. split; [|reflexivity]. constructor; [|constructor]. unfold term_holds. cbn [fst snd].
+      apply (all_always_matches wit_cfg).
+Qed.
+
+(* a well-formed example: acl a src 127.0.0.0/30 127.0.0.9; acl d dstdomain .verif.test; acl p port 80 8000-8080;
+   acl g method get POST; http_access deny !a g; http_access allow d p *)
+Definition ex_a : bytes := [97].
+Definition ex_d : bytes := [100].
+Definition ex_p : bytes := [112].
+Definition ex_g : bytes := [103].
+Definition ex_dom : bytes := [46; 118; 101; 114; 105; 102; 46; 116; 101; 115; 116].           (* .verif.test *)
+Definition ex_host : bytes := [97; 46; 118; 101; 114; 105; 102; 46; 116; 101; 115; 116].      (* a.verif.test *)
+Definition ex_cfg : list line :=
+  [LAcl ex_a TSrc [ICidr 2130706432 30; ISingle 2130706441] [];
+   LAcl ex_d TDom [] [ex_dom];
+   LAcl ex_p TPort [] [[56; 48]; [56; 48; 48; 48; 45; 56; 48; 56; 48]];
+   LAcl ex_g TMeth [] [[103; 101; 116]; [80; 79; 83; 84]];
+   LAccess false [(true, ex_a); (false, ex_g)];
+   LAccess true [(false, ex_d); (false, ex_p)]].
+Definition ex_env : env := mkEnv [(ex_host, 2130706433)] [(2130706433, ex_host)].
+Definition ex_req (c : N) (m : bytes) (port : Z) : request := mkReq c m ex_host None port.
+
+Lemma ex_cfg_ok : Forall line_ok ex_cfg.
+Proof.
+  repeat (apply Forall_cons); try apply Forall_nil; cbn [line_ok]; try exact I;
+    repeat (apply Forall_cons); try apply Forall_nil; cbn [iptok_ok]; try reflexivity; try discriminate.
+  all: try (split; [reflexivity|]; split; [split; discriminate| reflexivity]).
+Qed.
+Lemma ex_reqs_ok : Forall (req_ok ex_env)
+  [ex_req 2130706434 b_GET 80; ex_req 2130706437 b_GET 80; ex_req 2130706437 [72; 69; 65; 68] 8001; ex_req 2130706441 [80; 79; 83; 84] 9000].
+Proof.
+  repeat (apply Forall_cons); try apply Forall_nil; (split; [reflexivity|]; split;
+    [cbn; repeat constructor| split; discriminate]).
+Qed.
+Lemma ex_run : access_run ex_cfg ex_env
+  [ex_req 2130706434 b_GET 80; ex_req 2130706437 b_GET 80; ex_req 2130706437 [72; 69; 65; 68] 8001; ex_req 2130706441 [80; 79; 83; 84] 9000]
+  = Some [OForward; ODeny403; OForward; ODeny403].
+Proof. vm_compute. reflexivity. Qed.
